@@ -37,7 +37,8 @@ fn my_slot() -> Slot {
 }
 fn slot_enter(case: &Case) {
     // cloning is cheap next to lexing three variants; skip the copy for huge inputs
-    if case.texts.iter().map(|t| t.len()).sum::<usize>() < (1 << 20) {
+    // (a thread batch is thousands of lexer calls, not one: it is not timed as a single call)
+    if case.kind != "batch" && case.texts.iter().map(|t| t.len()).sum::<usize>() < (1 << 20) {
         *my_slot().lock().unwrap() = Some((Instant::now(), case.clone()));
     }
 }
